@@ -300,12 +300,12 @@ def bfs_collect(ctx, ex, on_violation):
     out.append((r0["saved"], list(ex.init_ops)))
     seen_sync.add(r0["canon"])
     frontier = [(r0["saved"], list(ex.init_ops), r0["info"])]
-    X._CURRENT = ex
     for depth in range(1, ex.depth + 1):
         jobs = [(saved, hist, op) for saved, hist, info in frontier for op in ex.alphabet_fn(hist, info)]
         nxt = []
         done = 0
-        for job, r in par.pmap(X._job_global, jobs, deadline=ctx.deadline):
+        for job, r in par.pmap(X._job_global, X.make_jobs(ex, jobs), deadline=ctx.deadline):
+            job = job[3:]
             done += 1
             ex.transitions += 1
             hist = job[1] + [job[2]]
@@ -318,7 +318,7 @@ def bfs_collect(ctx, ex, on_violation):
                 continue
             seen.add(r["canon"])
             ex.states += 1
-            nxt.append((r["saved"], hist, r["info"]))
+            nxt.append((X.intern_saved(r["saved"]), hist, r["info"]))
         if done < len(jobs):
             ctx.cap("%s: deadline in phase 1 at depth %d" % (ex.label, depth))
             break
